@@ -561,7 +561,22 @@ pub fn run(seed: u64, count: usize, max_n: usize, mode: &str, out: &mut impl Wri
         let a = produce(dir.path(), &c, &g, &how);
         let reload = if a.status == "ok" { reload_seq(dir.path(), c.le) } else { Err("skipped".into()) };
         let id = format!("{mode}{i}");
-        emit(out, &id, path, &c, &g, &cuts, &a);
+        if path == "par_dcf" && a.status == "ok" {
+            // the degree cumulative function built by the library (`build_dcf`), read back
+            // entry by entry, travels with the case
+            let mut buf: Vec<u8> = Vec::new();
+            emit(&mut buf, &id, path, &c, &g, &cuts, &a);
+            let line = String::from_utf8(buf).unwrap();
+            let dcf = catch(std::panic::AssertUnwindSafe(|| {
+                use value_traits::slices::SliceByValue;
+                let d = vec_graph(&g).build_dcf();
+                (0..d.len()).map(|i| d.index_value(i) as usize).collect::<Vec<_>>()
+            }));
+            let extra = match dcf { Ok(v) => format!("dcf={}", fmt_ints(&v)), Err(e) => format!("dcf=panic:{}", sanitize(&e)) };
+            writeln!(out, "{} {}", line.trim_end(), extra).unwrap();
+        } else {
+            emit(out, &id, path, &c, &g, &cuts, &a);
+        }
         emit_reload(out, &id, &g, reload);
     }
 }
